@@ -236,7 +236,11 @@ func c10(ctx *core.Ctx) {
 	ctx.Rule("crash points enumerated completely: panic in each of 2 container / 2 service / 2 route filters before and after passing control, in the handler before / between / after its writes, in an If-condition, and (routing-failure request) in container filters and the custom error handler; x recovery {on, off} x coding {none, gzip, deflate} (container switch or route override) x provider {sync.Pool, bounded(1), custom} x entry {Dispatch, ServeHTTP} x filters writing output or not x custom/default recover handler x panic value kind {pointer, string, error, runtime error, http.ErrAbortHandler} (value kinds on the sync.Pool / no-marker slice). Monitors: recover() around the entry, recording RecoverHandler, compressor ledger, probe requests replayed after every panic, Add+Remove afterwards (needs the write lock). Then sequences of 20 mixed panicking/normal requests per container. Non-trivial = every crash case; distinct by the full cell.")
 	ctx.Assume("HandleWithFilter is excluded: the property speaks of routed dispatch",
 		"panic values are pointers so that 'the same value' is decided by identity")
-	defer restful.SetCompressorProvider(restful.NewSyncPoolCompessors())
+	defer func() {
+		if !c10Stop {
+			restful.SetCompressorProvider(restful.NewSyncPoolCompessors())
+		}
+	}()
 	routedPos, unroutedPos := c10Positions()
 	var cases []c10Case
 	for _, routed := range []bool{true, false} {
